@@ -146,7 +146,7 @@ func c01OpRun2(c *Case, rng *Rng, failA, failB int, x0, x1, x2, x3 []c01Ev, scra
 	}
 	conf := "configVersion: v1\nkubernetes:\n" + one("cmsA", "") + one("cmsB", "qB")
 	_ = os.WriteFile(filepath.Join(hooksDir, "config.yaml"), []byte(conf), 0o644)
-	_ = os.WriteFile(filepath.Join(hooksDir, "hook.sh"), []byte(fmt.Sprintf(c01HookScript2, logDir)), 0o755)
+	_ = writeScript(filepath.Join(hooksDir, "hook.sh"), []byte(fmt.Sprintf(c01HookScript2, logDir)), 0o755)
 	for _, k := range []string{"cmsA:Synchronization", "cmsB:Synchronization"} {
 		_ = os.WriteFile(filepath.Join(logDir, "hold-"+k), nil, 0o644)
 	}
